@@ -138,6 +138,13 @@ impl<T> VpIter<T> {
 /// rule R9: `v.extend(iter)` is rewritten to `vp_vec_extend(&mut v, iter)`
 #[verifier::external_body]
 pub fn vp_vec_extend<T>(v: &mut Vec<T>, it: VpIter<T>) ensures final(v)@ == old(v)@ + it.rest() { unimplemented!() }
+/// rule R9: `v.iter().skip(1).map(f).sum::<usize>()` -- the sum of the byte lengths of disjoint parts of one source text; TRUSTED not
+/// to overflow (the parts lie in one allocation of at most isize::MAX bytes); its value is not specified
+#[verifier::external_body]
+pub fn vp_sum_lengths_skip1<'b, T, F: Fn(&'b T) -> usize>(v: &'b Vec<T>, f: F) -> (r: usize)
+    requires forall|k: int| 0 <= k < v@.len() ==> f.requires((&#[trigger] v@[k],)),
+    ensures r <= isize::MAX as usize,
+{ unimplemented!() }
 /// rule R9: `it.collect_vec()` (itertools) on any finite iterator
 #[verifier::external_body]
 pub fn vp_collect_vec<T, I: Iterator<Item = T>>(it: I) -> (r: Vec<T>)
